@@ -6,6 +6,7 @@ import Hpbf.Bc
 import Hpbf.BcWf
 import Hpbf.Cert
 import Hpbf.Cli
+import Hpbf.Window
 
 namespace Hpbf
 namespace Driver3
@@ -199,10 +200,12 @@ def decodeBc (w : Nat) (toks : List String) : Option (Bc.Program w) := do
   | [] => none
 
 def bcRun (w : Nat) (limited : Bool) (budget fuel : Nat) (env : Env) (win : Bool) (p : Bc.Program w) : String :=
+  let r := Window.run .threadedSafe p limited budget fuel env { size := 0, cur := 0 }
+  let lay := if win then " @" ++ toString r.lay.size ++ "/" ++ toString r.lay.cur ++ (if r.ok then "" else " OOB") else ""
   let show_ (tag : String) (c : Bc.Cfg w) : String :=
     tag ++ " " ++ Driver.encodeTrace c.st.trace ++ " " ++ (if win then Driver.window c.st else "-")
-      ++ " b" ++ toString c.budget
-  match Bc.run p limited budget fuel env with
+      ++ " b" ++ toString c.budget ++ lay
+  match r.out with
   | .done c => show_ "ok" c
   | .stopped c => show_ "ok" c
   | .interrupted c => show_ "interrupted" c
